@@ -37,8 +37,37 @@ def _diff(a, b):
     return [k for k in a if a[k] != b.get(k)]
 
 
+EMPTY_TEXTS = ["", "\n", "# nothing here\n", ".data\nv: .word 3, 4\n", ".text\n", "lbl:\n", ".data\nq: .word 0xFFFF\n.text\nend:\n"]
+
+
+def check_empty(case, stats):
+    """A program without instructions is done from the start: every stepping call, in any order, is a no-op (state,
+    counters, visualisation values and the has_started flag stay as loaded) and none raises."""
+    from architecture_simulator.simulation.toy_simulation import ToySimulation
+    from vf import snap
+    text = EMPTY_TEXTS[case["text"] % len(EMPTY_TEXTS)]
+    for si, sched in enumerate(case["sched"]):
+        sim = ToySimulation()
+        sim.load_program(text)
+        if not sim.is_done():
+            raise Violation("empty-program-not-done", case, f"{text!r} is not done after loading")
+        before = snap.toy_snapshot(sim)
+        for ci, call in enumerate(sched):
+            fn = {"step": sim.step, "first": sim.first_cycle_step, "second": sim.second_cycle_step, "single": sim.single_step, "run": sim.run}[call]
+            try:
+                fn()
+            except Exception as ex:
+                raise Violation("call-raises-other", case, f"schedule {si} call #{ci} {call} on a program without instructions: {type(ex).__name__}: {ex}")
+            after = snap.toy_snapshot(sim)
+            if after != before:
+                raise Violation("call-after-done-changed-state", case, f"schedule {si} call #{ci} {call} on a program without instructions changed {_diff(before, after)}")
+    stats.count(case, True, {"empty-program"}, sample_tag="empty")
+
+
 def check(case, stats):
     from architecture_simulator.simulation.runtime_errors import StepSequenceError
+    if case.get("kind") == "empty":
+        return check_empty(case, stats)
     illegal_mid = 0
     flags = set()
     for si, sched in enumerate(case["sched"]):
@@ -136,8 +165,16 @@ def corpus():
 
 def shards(tier, seed):
     n, k = (150, 4) if tier == "quick" else (900, 16)
-    return [{"n": n, "seed": seed * 1000 + i} for i in range(k)]
+    return [{"n": n, "seed": seed * 1000 + i} for i in range(k)] + [{"what": "empty"}]
+
+
+def empty_cases():
+    calls = ["step", "first", "second", "single", "run"]
+    for t in range(len(EMPTY_TEXTS)):
+        yield {"kind": "empty", "text": t, "sched": [[c] for c in calls] + [[a, b] for a in calls for b in calls]}
 
 
 def run_shard(item, stats):
+    if item.get("what") == "empty":
+        return core.run_cases(empty_cases(), check, stats, core.known_matcher(ID, globals().get("known_match")))
     core.hyp_search(case_strategy(), check, stats, item["n"], item["seed"], core.known_matcher(ID, globals().get("known_match")))
